@@ -901,7 +901,12 @@ func (e *Engine) checkCallSitesFrame(st *State, fr *Frame, calleeKey string, sig
 		if off == 1 {
 			env["recv"] = env[names[0]]
 		}
-		sc := &specCtx{e: e, st: st, heap: st.Heap, oldHeap: e.entryHeap, oldAlloc: e.entryAlloc, env: env, pkg: e.specPkg(fr.Contract), frame: fr}
+		// old(...) in a call-site clause: the entry of the function that carries the clause
+		oh, oa := e.entryHeap, e.entryAlloc
+		if len(st.Frames) > 0 && fr != st.Frames[0] && fr.EntryHeap != nil {
+			oh, oa = fr.EntryHeap, fr.EntryAlloc
+		}
+		sc := &specCtx{e: e, st: st, heap: st.Heap, oldHeap: oh, oldAlloc: oa, env: env, pkg: e.specPkg(fr.Contract), frame: fr}
 		e.oblige(st, "callsite", calleeKey, pos, e.evalClause(sc, cs.Clause), "call-site obligation for "+calleeKey+": "+cs.Clause.Src)
 	}
 }
